@@ -255,8 +255,25 @@ pub fn c08(run: &mut Run) -> Stats {
         })
         .reduce(Stats::default, Stats::merge);
     st = st.merge(st_e);
+    // (f) every name the subject's own tables mention (a newly added alias or property is a candidate too),
+    // in every property-expression position
+    let src_names = crate::c11::names_in_subject_source();
+    let st_f = src_names
+        .par_iter()
+        .fold(Stats::default, |mut st, nm| {
+            for tpl in ["\\p{N}", "\\P{N}", "[\\p{N}]", "\\p{gc=N}", "\\p{General_Category=N}", "\\p{sc=N}", "\\p{Script=N}", "\\p{scx=N}", "\\p{Script_Extensions=N}", "\\p{N=Yes}", "[^\\P{N}]"] {
+                let pat: Vec<u32> = tpl.replace('N', nm).chars().map(|c| c as u32).collect();
+                for m in MODES {
+                    judge(&pat, Flags::parse(m), &mut st, runref, "property name from the subject's tables");
+                }
+            }
+            st
+        })
+        .reduce(Stats::default, Stats::merge);
+    st = st.merge(st_f);
+    run.extra.push(("names_from_subject_tables".into(), J::u(src_names.len() as u64)));
     run.rule = format!(
-        "(e) every sequence of <= {} words from {{sc scx gc Script General_Category = Greek Latin Lu L ASCII Any RGI_Emoji x _ space}} as the body of \\p{{..}} / \\P{{..}}, bare, in a class, and unterminated, x {{legacy, u, v}}; (a) every string over the {}-token alphabet {:?} of length <= {} x {{legacy, u, v}}; (b) {} seed patterns (printed from the named/mods/look/core/onechar/icase profiles plus hand-written structured syntax) x all single-token edits (delete, replace, insert at every position over a 28-token alphabet); (c) every string over the focused alphabet {{[ ] ( ) a \\ 1}} up to length 8 (9 thorough); (d) 29 size-parameterised shapes x sizes up to 1000 (nesting shapes up to 200, below the documented limits); verdict = with_flags(p,f).is_ok() <=> p in L(ES2025 Pattern[f]) as decided by the reference parser; non-trivial = the string is a valid pattern",
+        "(f) every string literal in the subject's own property-name tables in 11 property-expression templates x {{legacy, u, v}}; (e) every sequence of <= {} words from {{sc scx gc Script General_Category = Greek Latin Lu L ASCII Any RGI_Emoji x _ space}} as the body of \\p{{..}} / \\P{{..}}, bare, in a class, and unterminated, x {{legacy, u, v}}; (a) every string over the {}-token alphabet {:?} of length <= {} x {{legacy, u, v}}; (b) {} seed patterns (printed from the named/mods/look/core/onechar/icase profiles plus hand-written structured syntax) x all single-token edits (delete, replace, insert at every position over a 28-token alphabet); (c) every string over the focused alphabet {{[ ] ( ) a \\ 1}} up to length 8 (9 thorough); (d) 29 size-parameterised shapes x sizes up to 1000 (nesting shapes up to 200, below the documented limits); verdict = with_flags(p,f).is_ok() <=> p in L(ES2025 Pattern[f]) as decided by the reference parser; non-trivial = the string is a valid pattern",
         wn,
         toks.len(),
         TOKENS,
